@@ -31,7 +31,7 @@ def one(args):
         env = dict(os.environ, TMPDIR=_tmpdir(scratch), VERIF_REPO_SRC=os.path.join(scratch, "src"), VERIF_OUT_DIR=os.path.join(scratch, "out"), VERIF_PROCS="4")
         out = {}
         for chk in meta.get("checks", {meta["property"]: 0}):
-            proc = subprocess.run([os.path.join(VERIF, "check"), chk, tier], cwd=VERIF, env=env, capture_output=True, text=True)
+            proc = subprocess.run(["timeout", "1500", os.path.join(VERIF, "check"), chk, tier], cwd=VERIF, env=env, capture_output=True, text=True)
             sigs = [l.strip()[len("signature: "):] for l in proc.stdout.splitlines() if l.strip().startswith("signature:")]
             out[chk] = {"exit": proc.returncode, "signatures": sigs[:4]}
         status = "caught" if any(v["exit"] == 1 for v in out.values()) else ("ERROR" if any(v["exit"] == 2 for v in out.values()) else "MISSED")
